@@ -105,6 +105,29 @@ fn keys_of(g: &AnyG) -> String {
     with_g!(g, x => show_nats(&x.keys()))
 }
 
+fn entry(g: &AnyG, v: usize) -> String {
+    with_g!(g, x => {
+        let marker = if x.v_print(v).map(|s| s.contains("⟦Δ")).unwrap_or(false) { "!" } else { "" };
+        format!("{v}{marker}{}", show_edges(x.kids(v)))
+    })
+}
+
+/// keys, then the entries of the argument vertices that are present after the call
+fn post(g: &AnyG, args: &[usize]) -> String {
+    let keys = with_g!(g, x => x.keys());
+    let touched: Vec<String> = args.iter().filter(|v| keys.contains(v)).map(|v| entry(g, *v)).collect();
+    format!("{} ; {}", show_nats(&keys), touched.join(" "))
+}
+
+fn op_args(cmd: &str, rest: &[&str]) -> Vec<usize> {
+    let k = match cmd {
+        "bind" => 2,
+        "add" | "put" | "data" | "kid" | "kids" => 1,
+        _ => 0,
+    };
+    rest.iter().take(k).filter_map(|s| s.parse().ok()).collect()
+}
+
 /// A call on one live graph; `None` = bad-op. Returns the text before " ; keys".
 fn core_call(g: &mut AnyG, cmd: &str, rest: &[&str]) -> Option<String> {
     match (cmd, rest) {
@@ -155,11 +178,7 @@ fn core_call(g: &mut AnyG, cmd: &str, rest: &[&str]) -> Option<String> {
 
 fn observe(g: &AnyG) -> String {
     with_g!(g, x => {
-        let mut parts = vec![];
-        for v in x.keys() {
-            let marker = if x.v_print(v).map(|s| s.contains("⟦Δ")).unwrap_or(false) { "!" } else { "" };
-            parts.push(format!("{v}{marker}{}", show_edges(x.kids(v))));
-        }
+        let parts: Vec<String> = x.keys().into_iter().map(|v| entry(g, v)).collect();
         format!("ok {}", parts.join(" "))
     })
 }
@@ -228,7 +247,7 @@ impl World {
                     Some(HS::Dead) => "dead".into(),
                     Some(HS::Live(g)) => {
                         let r = catch_unwind(AssertUnwindSafe(|| {
-                            core_call(g, cmd, rest).map(|s| format!("{s} ; {}", keys_of(g)))
+                            core_call(g, cmd, rest).map(|s| format!("{s} ; {}", post(g, &op_args(cmd, rest))))
                         }));
                         match r {
                             Ok(Some(s)) => s,
